@@ -551,10 +551,11 @@ Section Sim.
   Lemma filter_sim (p : expr -> bool) l' l : (forall x' x, esim x' x -> p x' = p x) -> Forall2 esim l' l -> Forall2 esim (filter p l') (filter p l).
   Proof. intros Hp. induction 1 as [|a' a r' r Ha _ IH]; [constructor|]. cbn [filter]. rewrite (Hp _ _ Ha). destruct (p a); [now constructor|exact IH]. Qed.
 
-  Lemma parse_ops_sim : forall ops comp b' e' b e is' is_,
-    Forall2 isim is' is_ -> rsimG esim (parse_ops ops comp b' e' is') (parse_ops ops comp b e is_).
+  (* only the stripped lists matter *)
+  Lemma parse_ops_sim_strip : forall ops comp b' e' b e is' is_,
+    Forall2 isim (strip is') (strip is_) -> rsimG esim (parse_ops ops comp b' e' is') (parse_ops ops comp b e is_).
   Proof.
-    induction ops as [|op rest IH]; intros comp b' e' b e is' is_ H0; pose proof (strip_sim _ _ H0) as H; cbn [parse_ops].
+    induction ops as [|op rest IH]; intros comp b' e' b e is' is_ H; cbn [parse_ops].
     - destruct H as [|i' i l' l Hi Hl]; [cbn [rsimG]; now apply sim_EList|].
       assert (Hat : rsimG esim (parse_atoms (i' :: l')) (parse_atoms (i :: l))) by (apply parse_atoms_sim; now constructor).
       destruct Hi as [t' t Ht|gb' ge' r' gb ge r Hr]; [exact Hat|]. destruct Hl; [exact Hr|exact Hat].
@@ -563,14 +564,14 @@ Section Sim.
       set (body' := if existsb (item_is op) (i' :: l') then _ else _).
       set (body := if existsb (item_is op) (i :: l) then _ else _).
       assert (Hbody : rsimG esim body' body).
-      { subst body' body. rewrite (existsb_item_sim op _ _ Hall). destruct (existsb (item_is op) (i :: l)); [|now apply IH].
+      { subst body' body. rewrite (existsb_item_sim op _ _ Hall). destruct (existsb (item_is op) (i :: l)); [|apply IH; now apply strip_sim].
         pose proof (split_at_sim op _ _ [] [] 0 0 Hall (Forall2_nil _)) as Hsp.
         set (operands' := match op with LSpace => filter _ (split_at op (i' :: l') [] 0) | _ => split_at op (i' :: l') [] 0 end).
         set (operands := match op with LSpace => filter _ (split_at op (i :: l) [] 0) | _ => split_at op (i :: l) [] 0 end).
         assert (Hops : Forall2 opsim operands' operands).
         { subst operands' operands. destruct op; try exact Hsp. now apply filter_nonempty_sim. }
         apply (bind_sim (Forall2 esim)).
-        - apply sequence_sim. eapply Forall2_map2; [exact Hops|]. intros o' o Ho. apply IH. exact Ho.
+        - apply sequence_sim. eapply Forall2_map2; [exact Hops|]. intros o' o Ho. apply IH. apply strip_sim. exact Ho.
         - intros xs' xs Hxs. destruct op; cbn [rsimG]; auto.
           + apply rsim_G, sim_op_create. now apply lsim_of.
           + apply rsim_G, sim_args_create. now apply lsim_of.
@@ -579,6 +580,10 @@ Section Sim.
           + apply sim_list_create. now apply lsim_of. }
       destruct Hi as [t' t Ht|gb' ge' r' gb ge r Hr]; [exact Hbody|]. destruct Hl; [exact Hr|exact Hbody].
   Qed.
+
+  Lemma parse_ops_sim ops comp b' e' b e is' is_ :
+    Forall2 isim is' is_ -> rsimG esim (parse_ops ops comp b' e' is') (parse_ops ops comp b e is_).
+  Proof. intros H. apply parse_ops_sim_strip. now apply strip_sim. Qed.
 
   Lemma group_result_sim paren o' c' o c in' in_ :
     Forall2 isim in' in_ -> rsimG esim (group_result paren o' c' in') (group_result paren o c in_).
